@@ -79,14 +79,14 @@ func (h *vC16Home) GetLatestValue(ctx context.Context, id string, conf primitive
 // waits until two complete fetches have STARTED after the call (so the state is from a fetch that saw the change)
 func (h *vC16Home) sync(t *testing.T) {
 	c0 := h.fetches.Load()
-	deadline := time.Now().Add(5 * time.Second)
-	for h.fetches.Load() < c0+2 {
-		if time.Now().After(deadline) {
-			t.Fatalf("verif: home-chain poller did not poll")
-		}
-		time.Sleep(time.Millisecond)
+	// the event: the fetch counter of the scripted contract has advanced by two (the poll loop is sequential, so the
+	// first of them has gone through setState). The poller polls every 3 ms; "it does not poll" is decided by a watch
+	// (30 s that stretch when the machine is starved), and only after a second, longer one has expired as well.
+	polled := func() bool { return h.fetches.Load() >= c0+2 }
+	if !vAwait(30*time.Second, polled) && !vAwait(60*time.Second, polled) {
+		t.Fatalf("verif: home-chain poller did not poll")
 	}
-	time.Sleep(2 * time.Millisecond) // setState of the second fetch
+	time.Sleep(2 * time.Millisecond) // not needed for the sequential poll loop; leaves room for a setState that lags its fetch
 }
 
 func TestVerif_C16_exec_roles(t *testing.T) {
